@@ -21,7 +21,7 @@ PROPS = {
     'C04': dict(facts=[], keys=['C04', 'C09side'], tkeys=['T:phase4-valign', 'T:phase4-packright', 'T:output', 'T:phase4-sinkcoloring', 'K:layersWF', 'K:sc-blockwidth', 'T:phase4-ns'], suites=[('c04', 2500, 60000), ('e2e', 500, 10000), ('e2e-big', 8, 100)], partial=[]),
     'C05': dict(facts=[], keys=['C05'], tkeys=['T:phase5', 'T:post', 'T:output', 'T:break'], suites=[('c05', 2500, 60000), ('e2e', 500, 10000), ('e2e-big', 8, 100)], partial=[]),
     'C06': dict(facts=[], keys=['C06'], tkeys=['T:phase5', 'T:output', 'T:break'], suites=[('c06', 2500, 60000), ('e2e', 500, 10000), ('e2e-big', 8, 100)], partial=[]),
-    'C07': dict(facts=['Maps', 'Shared'], keys=['C07rep', 'C07input', 'C07fresh'], tkeys=['T:phase2-ns', 'T:phase4-sinkcoloring'], suites=[('e2e', 2500, 60000), ('e2e-big', 8, 100)],
+    'C07': dict(facts=['Maps', 'Shared'], keys=['C07rep', 'C07input', 'C07fresh'], tkeys=['T:phase2-ns', 'T:phase4-sinkcoloring'], suites=[('e2e', 2500, 60000), ('e2e-big', 8, 100), ('e2e-dec', 400, 8000)],
                 fresh_process=True, partial=[]),
     'C08': dict(facts=['Ids'], keys=['C08'], tkeys=['T:pre', 'T:break', 'T:phase4-ns', 'T:output'], suites=[('rename', 2000, 50000), ('e2e', 600, 10000)], partial=[]),
     'C09': dict(facts=['Shared'], keys=['C09', 'C09side'],
@@ -39,7 +39,7 @@ PROPS = {
     'C16': dict(facts=[], keys=['C16'], tkeys=['T:phase4-valign', 'T:phase4-packright', 'T:output', 'K:layersWF'], suites=[('c16', 2500, 60000), ('e2e-big', 8, 100)], partial=[]),
     'C17': dict(facts=['Numbers'], keys=['C17'], tkeys=['T:phase4-valign', 'T:phase4-packright', 'T:phase4-sinkcoloring', 'T:assignY', 'T:phase5', 'T:output', 'T:phase4-bk'], suites=[('scale', 2000, 50000), ('e2e', 800, 10000)], partial=[]),
     'C18': dict(facts=['Shared'], keys=['C18own', 'C18same', 'C18nonvacuous'], tkeys=['T:monitor'],
-                suites=[('history', 1500, 30000), ('monitor', 1000, 20000), ('e2e', 1000, 30000), ('c18bk', 1500, 30000)], partial=[]),
+                suites=[('history', 1500, 30000), ('monitor', 1000, 20000), ('e2e', 1000, 30000), ('c18bk', 1500, 30000), ('e2e-dec', 400, 8000)], partial=[]),
     'C19': dict(facts=[], keys=['C19'], tkeys=[], suites=[('c19', 3000, 100000), ('c19-a', 2000, 100000)],
                 partial=['C19_shortest: that the returned path is shortest is decided per run by an independent search (visibility-graph Dijkstra) whose result the driver re-validates exactly (containment checker, certified square-root bounds); no theorem says the funnel algorithm is correct']),
     'C20': dict(facts=[], keys=['C20', 'C20roots'], tkeys=['K:c20-contained'], suites=[('c20', 1500, 40000), ('solve', 3000, 100000)],
